@@ -263,11 +263,13 @@ def run_property(prop, tier, seed, args):
         cov.setdefault("samples", [])
         for b in bounded:
             cov["samples"].extend(b.get("samples", [])[:2])
-    if have_contracts and n_ob > 0 and n_dis == n_ob and not violations and not undecided and not seen_kf:
+    listed_findings = [k for k in known if k.get("property") == prop]
+    if have_contracts and n_ob > 0 and n_dis == n_ob and not violations and not undecided and not seen_kf and not listed_findings:
         ev["level"] = "proof"
     elif have_contracts:
         ev["level"] = "other"
-        cov["explanation"] = (f"deductive obligations: {n_dis} discharged of {n_ob}; {refuted_known} refuted and listed as known "
+        cov["explanation"] = (f"{len(listed_findings)} known finding(s) listed for this property in known_findings.txt; "
+                              f"deductive obligations: {n_dis} discharged of {n_ob}; {refuted_known} refuted and listed as known "
                               f"findings; {len(undecided)} undecided; {len(violations)} violations. Level 'proof' is written "
                               "only by a run in which every obligation is discharged.")
     else:
